@@ -56,7 +56,16 @@ DIRECTED = [
     ([("from typing import *", "t")], ["pick"], 0),
     ([("from mypy_extensions import TypedDict", "t")], ["total"], 5),
     ([("from shapes import Square", "t")], ["annotated"], 0),
+    # TYPE_CHECKING imported by the source only where it does not bind the module-level name (or too late)
+    ([("from typing import TYPE_CHECKING", "f")], ["area_of"], 0),
+    ([("import os", "t"), ("from typing import TYPE_CHECKING", "y")], ["area_of"], 0),
+    # user modules whose names merely start with "typing" / "mypy_extensions"
+    ([], ["payload"], 0),
+    ([("import typings", "t")], ["helper", "compat"], 0),
+    ([("from typing_helpers import Helper as H", "t")], ["helper", "total"], 5),
 ]
+
+FX_MODULES = ("shapes", "geo.pts", "other", "typings", "typing_helpers", "mypy_extensions_compat")
 
 RUNNER = r"""
 import sys, json, importlib
@@ -75,16 +84,16 @@ def _load_fixture(fx_root):
     G.write_fixture(fx_root)
     sys.path.insert(0, fx_root)
     importlib.invalidate_caches()
-    for m in ("shapes", "geo", "geo.pts", "other"):
+    for m in FX_MODULES + ("geo",):
         sys.modules.pop(m, None)
-    return {m: importlib.import_module(m) for m in ("shapes", "geo.pts", "other")}
+    return {m: importlib.import_module(m) for m in FX_MODULES}
 
 
 def _unload_fixture(fx_root):
     if fx_root in sys.path:
         sys.path.remove(fx_root)
     for m in list(sys.modules):
-        if m in ("shapes", "geo", "geo.pts", "other") or re.match(r"t\d+_(src|out)$", m):
+        if m in FX_MODULES or m == "geo" or re.match(r"t\d+_(src|out)$", m):
             sys.modules.pop(m, None)
 
 
@@ -178,11 +187,11 @@ def evaluate(ctx, cases, fx_root):
 
 CLAUSE_NAMES = ["head_is_future_import", "new_items_under_TYPE_CHECKING", "no_new_runtime_import", "source_imports_in_place",
                 "runtime_names_bound", "generated_class_bases_bound", "model_eq_impl", "libcst_assumptions",
-                "kf_shadow", "kf_apply_extra"]
+                "kf_shadow", "kf_apply_extra", "TYPE_CHECKING_bound_before_block"]
 
 
 def describe(c, code, cl, beh):
-    failing = [n for n, v in zip(CLAUSE_NAMES[:6], cl or []) if not v]
+    failing = [n for k, (n, v) in enumerate(zip(CLAUSE_NAMES, cl or [])) if not v and (k < 6 or k == 10)]
     bits = []
     if failing:
         bits.append("clauses false: " + ", ".join(failing))
@@ -210,7 +219,9 @@ def run(ctx):
                 k = rnd.choice([0, 5, 5])
                 forced = []
                 if rnd.random() < 0.5:   # aim at the seams: an import that resembles what the stub will import
-                    forced = [(rnd.choice(G.IMPORT_POOL[:14])[0], None)]
+                    seam = G.IMPORT_POOL[:14] + G.IMPORT_POOL[-5:] + \
+                        [e for e in G.IMPORT_POOL if e[0] == "from typing import TYPE_CHECKING"] * 2
+                    forced = [(rnd.choice(seam)[0], None)]
                     forced = [(st, rnd.choice([p for s2, _, p in G.IMPORT_POOL if s2 == st][0])) for st, _ in forced]
                 src = G.gen_source(rnd, fx, directed=forced)
             stub = G.make_stub(f"t{i}_src", fx_root, src, rnd, fx, k)
@@ -266,15 +277,15 @@ def run(ctx):
     failures.sort(key=lambda f: (1 if f.get("finding") else 0))
     return {
         "evaluations": len(cases), "distinct_nontrivial": len(nontrivial),
-        "rule": "16 directed witnesses (the design-phase defects and their neighbours), then random sources: optional docstring / "
-                "__future__ import, 0-5 import statements from a 27-entry pool (import a.b, aliases, star, typing, "
+        "rule": "21 directed witnesses (the design-phase defects and their neighbours), then random sources: optional docstring / "
+                "__future__ import, 0-5 import statements from a 32-entry pool (import a.b, aliases, star, typing, "
                 "mypy_extensions, clashing names) placed at the top, after a statement, in a function, under an existing "
                 "TYPE_CHECKING block or in try/except, 1-3 functions whose stub is rendered by MonkeyType's own "
                 "build_module_stubs_from_traces (k in {0,5}); every case goes through the real apply step, "
                 "get_newly_imported_items and apply_stub_using_libcst(..., True); verdict in Coq; then source and result are "
                 "imported in fresh interpreters and run() compared. non-trivial = the stub brings a newly imported item and "
                 "the source has an import; distinct by hash of the reified case",
-        "samples": [{"source": c["source"], "stub": c["stub"], "output": c["output"]} for c in cases[16:19]],
+        "samples": [{"source": c["source"], "stub": c["stub"], "output": c["output"]} for c in cases[21:24]],
         "distribution": dist, "failures": failures, "mismatches": mismatches,
         "relation": "module_eqb (confine stub src applied) out  /\\  set_eqb (newly stub src) impl_newly",
     }
